@@ -151,13 +151,15 @@ Definition dump_token_ok (d : cdump) (ip : N) (token : bytes) : bool :=
 Definition find_mut (d : cdump) (target : nat) := find (fun e => Nat.eqb (fst e) target) (d_mut d).
 
 (* C03 + C04 rule table for one step: `before`/`after` are implementation dumps *)
-Definition step_pb (p : pool) (before after : cdump) (s : sstep) : bool :=
+Definition step_pb (p : pool) (before after : cdump) (tok_hist tok_fresh : bool) (s : sstep) : bool :=
   if negb (q_allow s) then
     match q_reply s with YNone => dump_contents_eq before after && (d_prev before =? d_prev after) && (d_curr before =? d_curr after) | _ => false end
   else
   match q_req s with
   | CPut token c =>
-      let tok_ok := dump_token_ok after (q_ip s) token in
+      (* the token counts as valid when this node issued it to this IP within the last two secret generations (read off
+         the history, whatever the token function is) or when it is the model's token for this IP under a live secret *)
+      let tok_ok := tok_hist || dump_token_ok after (q_ip s) token in
       match q_reply s with
       | YError code =>
           (* rejected: contents unchanged, code in the BEP set, and some reason exists *)
@@ -176,6 +178,14 @@ Definition step_pb (p : pool) (before after : cdump) (s : sstep) : bool :=
               end)
           (* a bad token must be answered 203 whatever else is wrong *)
           && (tok_ok || (code =? 203))
+          (* and a token issued to this IP less than 5 minutes ago is not a bad token (203 also answers a signed
+             announcement that does not verify or is out of its time window, and an immutable value under a wrong target) *)
+          && negb ((code =? 203) && tok_fresh
+                   && match c with
+                      | CSigned _ t _ _ => q_vok s && (abs_diff (q_sys s) t <=? 45000000)
+                      | CImm target v => validate_immutable (pget p v) (pget p target)   (* 203 also answers a wrong hash *)
+                      | _ => true
+                      end)
       | YPing _ =>
           tok_ok &&
           match c with
@@ -306,25 +316,32 @@ Definition caps_pb (caps : nat * nat * nat * nat) (d : cdump) : bool :=
   && (length (d_speers d) <=? mih)%nat && forallb (fun e => (length (snd e) <=? mp)%nat) (d_speers d)
   && (length (d_imm d) <=? mi)%nat && (length (d_mut d) <=? mm)%nat.
 
-(* C15: the token carried by a reply was issued to the requester's IP *)
+(* C15: the token carried by a reply was issued to the requester's IP; [gen] counts the rotations seen so far *)
 Definition reply_token (y : creply) : option bytes :=
   match y with
   | YGetPeers _ tok _ _ | YGetSigned _ tok _ _ | YGetImm _ tok _ _ | YGetMut _ tok _ _ _ _ _ | YNoValues _ tok _ | YNoMore _ tok _ _ => Some tok
   | _ => None
   end.
-Definition was_issued (issued : list (N * bytes)) (ip : N) (token : bytes) : bool :=
-  existsb (fun e => (fst e =? ip) && bytes_eqb (snd e) token) issued.
+Definition was_issued (issued : list (N * bytes * nat * Z)) (ip : N) (token : bytes) : bool :=
+  existsb (fun e => let '(i, t, _, _) := e in (i =? ip) && bytes_eqb t token) issued.
+(* issued to this IP under the current or the previous secret *)
+Definition issued_and_live (issued : list (N * bytes * nat * Z)) (gen : nat) (ip : N) (token : bytes) : bool :=
+  existsb (fun e => let '(i, t, g, _) := e in (i =? ip) && bytes_eqb t token && (gen <=? S g)%nat) issued.
+(* issued to this IP less than 5 minutes ago *)
+Definition issued_recently (issued : list (N * bytes * nat * Z)) (now : Z) (ip : N) (token : bytes) : bool :=
+  existsb (fun e => let '(i, t, _, at_) := e in (i =? ip) && bytes_eqb t token && (now - at_ <? 300000)%Z) issued.
+Definition put_token (s : sstep) : option bytes := match q_req s with CPut token _ => Some token | _ => None end.
 (* an acknowledged write whose token was never issued to that IP by this node (within the history):
    None = not the case; Some true = the token nevertheless validates under the node's secrets - it was
    derived, not issued (known class F26); Some false = it does not even validate *)
-Definition unissued_ack (issued : list (N * bytes)) (after : cdump) (s : sstep) : option bool :=
+Definition unissued_ack (issued : list (N * bytes * nat * Z)) (after : cdump) (s : sstep) : option bool :=
   match q_req s, q_reply s with
   | CPut token _, YPing _ => if was_issued issued (q_ip s) token then None else Some (dump_token_ok after (q_ip s) token)
   | _, _ => None
   end.
 
 Fixpoint run03_steps_i (p : pool) (u : univ) (rt srt : rtable) (caps : nat * nat * nat * nat)
-         (sv : server) (tape : N) (before : cdump) (last_rot : Z) (issued : list (N * bytes)) (steps : list sstep) : list N :=
+         (sv : server) (tape : N) (before : cdump) (last_rot : Z) (gen : nat) (issued : list (N * bytes * nat * Z)) (steps : list sstep) : list N :=
   match steps with
   | [] => []
   | s :: r =>
@@ -335,11 +352,15 @@ Fixpoint run03_steps_i (p : pool) (u : univ) (rt srt : rtable) (caps : nat * nat
       | Some after =>
           let corr := reply_eqb p u rep (q_reply s) && dump_eqb p sv' after in
           let '(rok, last_rot') := rot_pb last_rot before after s in
-          let pb := step_pb p before after s && rok && caps_pb caps after in
-          let issued' := match reply_token (q_reply s) with Some tok => (q_ip s, tok) :: issued | None => issued end in
+          (* a rotation, if any, comes before the request is looked at *)
+          let gen' := if negb ((d_curr before =? d_curr after) && (d_prev before =? d_prev after)) then S gen else gen in
+          let tok_hist := match put_token s with Some tok => issued_and_live issued gen' (q_ip s) tok | None => false end in
+          let tok_fresh := match put_token s with Some tok => issued_recently issued (q_now s) (q_ip s) tok | None => false end in
+          let pb := step_pb p before after tok_hist tok_fresh s && rok && caps_pb caps after in
+          let issued' := match reply_token (q_reply s) with Some tok => (q_ip s, tok, gen', q_now s) :: issued | None => issued end in
           (if corr then [] else [1]) ++ (if pb then [] else [2])
           ++ (match unissued_ack issued after s with None => [] | Some true => [126] | Some false => [2] end)
-          ++ run03_steps_i p u rt srt caps sv' tape' after last_rot' issued' r
+          ++ run03_steps_i p u rt srt caps sv' tape' after last_rot' gen' issued' r
       | None => [1]
       end
   end.
@@ -356,7 +377,7 @@ Fixpoint run03_steps (p : pool) (u : univ) (rt srt : rtable) (caps : nat * nat *
       | Some after =>
           let corr := reply_eqb p u rep (q_reply s) && dump_eqb p sv' after in
           let '(rok, last_rot') := rot_pb last_rot before after s in
-          let pb := step_pb p before after s && rok && caps_pb caps after in
+          let pb := step_pb p before after false false s && rok && caps_pb caps after in
           (if corr then [] else [1]) ++ (if pb then [] else [2]) ++ run03_steps p u rt srt caps sv' tape' after last_rot' r
       | None => [1]
       end
@@ -370,7 +391,7 @@ Definition check03 (f : c03full) : list N :=
   let '(mih, mp, mi, mm) := k_caps c in
   let '(sv, tape) := server_new (k_tape c) (k_now0 c) mih mp mi mm in
   (if dump_eqb (k_pool c) sv (f_dump0 f) then [] else [1]) ++
-  run03_steps_i (k_pool c) u rt srt (k_caps c) sv tape (f_dump0 f) (k_now0 c) [] (k_steps c).
+  run03_steps_i (k_pool c) u rt srt (k_caps c) sv tape (f_dump0 f) (k_now0 c) O [] (k_steps c).
 
 Fixpoint run03 (k : N) (cs : list c03full) : list (N * N) :=
   match cs with
@@ -391,7 +412,7 @@ Fixpoint diag03_steps (p : pool) (u : univ) (rt srt : rtable) (caps : nat * nat 
       match q_dump s with
       | Some after =>
           let '(rok, last_rot') := rot_pb last_rot before after s in
-          (k, reply_eqb p u rep (q_reply s), dump_eqb p sv' after, step_pb p before after s, rok, caps_pb caps after)
+          (k, reply_eqb p u rep (q_reply s), dump_eqb p sv' after, step_pb p before after false false s, rok, caps_pb caps after)
             :: diag03_steps p u rt srt caps sv' tape' after last_rot' (k + 1) r
       | None => []
       end
